@@ -394,6 +394,8 @@ def translate_rankscore(path, wanted, module):
 #        | c.attr / c.meth() for a candidate c and a declared observer ('obs:attr' parameter: the attribute as a function)
 #        | x is (not) None as the test of an if statement, for a parameter declared optional
 #  Anything else raises Unsupported naming the node: the definition is marked failed (fail closed).
+# atomic types are 'Z' 'Q' 'B' 'C' and lowercase words; compound types are tuples tagged 'L' 'S' 'U' 'O' 'P' 'F' (no overlap, so
+# that ty[0] identifies a constructor also when ty is an atom)
 T_Z, T_Q, T_B, T_C = 'Z', 'Q', 'B', 'C'
 
 
@@ -419,9 +421,9 @@ def TFUN(args, ret):
 
 VOTES = TL(TP(T_C, T_Q))
 T_SEL = TFUN([VOTES], TL(T_C))       # a seatless selector: its evaluate(votes)
-T_STR = 'STR'                         # a configuration string; only compared with literals
-T_RES = 'RES'                         # an item of a get_n_best selection: candidate or Tie (Model/GetNBest.v res)
-T_PG = 'PG'                           # the prev_gains pass-through argument (never inspected by translated code)
+T_STR = 'str'                         # a configuration string; only compared with literals
+T_RES = 'res'                         # an item of a get_n_best selection: candidate or Tie (Model/GetNBest.v res)
+T_PG = 'pg'                           # the prev_gains pass-through argument (never inspected by translated code)
 EXN = {'ValueError': 'PyValueError', 'RuntimeError': 'PyRuntimeError', 'TypeError': 'PyTypeError', 'KeyError': 'PyKeyError',
        'IndexError': 'PyIndexError', 'ZeroDivisionError': 'PyZeroDivisionError', 'VotingSystemError': 'PyVotingSystemError',
        'NotImplementedError': 'PyNotImplementedError'}
@@ -1251,6 +1253,59 @@ def _find_filter_loop(fd, target):
     return found[0]
 
 
+FIXED_NAMES = ('len', 'sum', 'range', 'max', 'min', 'frozenset', 'set', 'list', 'sorted', 'Fraction', 'votelib', 'self')
+
+
+def _rebound_names(tree):
+    """names among FIXED_NAMES that the module binds to something else than what the translator reads them as: any assignment,
+       definition, parameter or import of the name anywhere in the file - except `from fractions import Fraction`, `import votelib...`
+       and `self` as the first parameter of a method"""
+    bad = set()
+    for n in ast.walk(tree):
+        if isinstance(n, ast.Name) and isinstance(n.ctx, (ast.Store, ast.Del)) and n.id in FIXED_NAMES:
+            bad.add(n.id)
+        elif isinstance(n, (ast.FunctionDef, ast.AsyncFunctionDef, ast.ClassDef)):
+            if n.name in FIXED_NAMES:
+                bad.add(n.name)
+            if not isinstance(n, ast.ClassDef):
+                a = n.args
+                allargs = a.posonlyargs + a.args + a.kwonlyargs + ([a.vararg] if a.vararg else []) + ([a.kwarg] if a.kwarg else [])
+                for i, x in enumerate(allargs):
+                    if x.arg in FIXED_NAMES and not (x.arg == 'self' and i == 0):
+                        bad.add(x.arg)
+        elif isinstance(n, ast.Import):
+            for al in n.names:
+                bound = al.asname or al.name.split('.')[0]
+                if bound in FIXED_NAMES and not (al.asname is None and al.name.split('.')[0] == 'votelib'):
+                    bad.add(bound)
+        elif isinstance(n, ast.ImportFrom):
+            for al in n.names:
+                bound = al.asname or al.name
+                if bound in FIXED_NAMES and not (n.module == 'fractions' and al.name == 'Fraction' and al.asname is None and n.level == 0):
+                    bad.add(bound)
+        elif isinstance(n, ast.ExceptHandler) and n.name in FIXED_NAMES:
+            bad.add(n.name)
+        elif isinstance(n, (ast.Global, ast.Nonlocal)):
+            bad.update(x for x in n.names if x in FIXED_NAMES)
+    has_fraction = any(isinstance(n, ast.ImportFrom) and n.module == 'fractions' and any(al.name == 'Fraction' and al.asname is None for al in n.names)
+                       for n in tree.body)
+    if not has_fraction:
+        bad.add('Fraction')
+    return bad
+
+
+def _attr_stores_elsewhere(cd, attrs, allowed):
+    """attributes (among attrs) that a method other than __init__ / the allowed ones assigns"""
+    out = set()
+    for m in cd.body:
+        if isinstance(m, ast.FunctionDef) and m.name != '__init__' and m.name not in allowed:
+            for n in ast.walk(m):
+                if isinstance(n, ast.Attribute) and isinstance(n.ctx, (ast.Store, ast.Del)) and isinstance(n.value, ast.Name) \
+                        and n.value.id == 'self' and n.attr in attrs:
+                    out.add(n.attr)
+    return out
+
+
 def _leading_locals(stmts):
     """the plain local assignments (x = e, e not an empty accumulator) among the top-level statements, in order"""
     return [s for s in _strip(stmts) if isinstance(s, ast.Assign) and len(s.targets) == 1 and isinstance(s.targets[0], ast.Name)
@@ -1304,6 +1359,7 @@ def translate_typed(path, defs, module):
     tree = ast.parse(open(path).read())
     classes = {n.name: n for n in tree.body if isinstance(n, ast.ClassDef)}
     funcs = {n.name: n for n in tree.body if isinstance(n, ast.FunctionDef)}
+    rebound = _rebound_names(tree)
     out, status, known, notes = [], {}, {}, {}
     for d in defs:
         name = d['name']
@@ -1317,7 +1373,11 @@ def translate_typed(path, defs, module):
                     raise Unsupported('method %s.%s not found' % (d['cls'], d['fn']))
                 if fd.decorator_list:
                     die(fd, 'decorated method')
-                _check_ctor(cd, [r[5:] for _, r, _ in d['params'] if r.startswith('self.')], d.get('ctor', {}))
+                attrs = [r[5:] for _, r, _ in d['params'] if r.startswith('self.')]
+                _check_ctor(cd, attrs, d.get('ctor', {}))
+                moved = _attr_stores_elsewhere(cd, [a for a in attrs if a not in d.get('ctor', {})], ())
+                if moved:
+                    die(cd, 'attribute(s) %s assigned outside __init__' % sorted(moved))
                 pyparams = [a.arg for a in fd.args.args[1:]]
             else:
                 fd = funcs.get(d['fn'])
@@ -1328,6 +1388,9 @@ def translate_typed(path, defs, module):
                 pyparams = [a.arg for a in fd.args.args]
             if fd.args.vararg or fd.args.kwarg or fd.args.kwonlyargs or fd.args.posonlyargs:
                 die(fd, 'parameter list')
+            used = {n.id for n in ast.walk(fd) if isinstance(n, ast.Name)} & rebound
+            if used:
+                die(fd, 'the module rebinds %s, which the translator reads with a fixed meaning' % sorted(used))
             kind = d['kind']
             in_handler = set(id(m) for n in ast.walk(fd) if isinstance(n, ast.ExceptHandler) for m in ast.walk(n))
             raises = kind == 'body' and any(isinstance(n, ast.Raise) and id(n) not in in_handler for n in ast.walk(fd))
